@@ -96,6 +96,16 @@ def _model_reject_guard(out):
                                   name='rejectguard', must_complete=False)
 
 
+def _model_reject_shared(prop, out):
+    """The code as written with ONE load context for the whole process instead of a threading.local (SharedCtx = TRUE):
+    TLC must reject the interleavings of two loading threads, on shapes outside the known findings."""
+    text = _cfg('RemotePickle_asis.cfg').replace('SharedCtx = FALSE', 'SharedCtx = TRUE')
+    keep = ('INVARIANT Inv_' + prop, 'INVARIANT AsIs_' + prop)
+    text = '\n'.join(l for l in text.splitlines() if not l.startswith('INVARIANT') or l.startswith(keep)) + '\n'
+    out['reject_shared'] = tlc.run('RemotePickleMC', cfg_text=text, env={'RP_SET': 'par'}, workers=2, timeout=600,
+                                   name='rejectshared', must_complete=False)
+
+
 def _model_wit(out):
     out['wit'] = tlc.run('RemotePickleMC', 'RemotePickle_wit.cfg', env={'RP_SET': 'wit'}, workers=2, timeout=600,
                          name='wit', must_complete=False)
@@ -161,6 +171,10 @@ def _expand(prop, tier, cases, pool):
             ps = protos13 if tier == 'thorough' else (protos13[n % 8], protos13[(n + 3) % 8])
         else:
             ps = (2 + n % 4,) if tier == 'quick' else (2 + n % 4, 2 + (n + 1) % 4)
+        if t == 'graph' and any(nd.get('fs', 'no') != 'no' for nd in scn['g']):
+            # falsy states / __getnewargs__ classes only at protocols >= 2: at 0 and 1 pickle's own copyreg._reduce_ex ignores
+            # __getnewargs__ and drops a falsy state, while remote_reduce always reduces the protocol-2 way
+            ps = tuple(q if q not in (0, 1) else 2 + q for q in ps)
         for j, p in enumerate(ps):
             if t != 'graph':
                 jobs.append((n, dict(scn, proto=p), None))
@@ -168,10 +182,14 @@ def _expand(prop, tier, cases, pool):
             cts = (ctypes[(n + j) % 3],) if (tier == 'quick' or prop == 'C13') else ctypes
             for ct in cts:
                 s2 = dict(scn, proto=p, ctype=ct)
+                if not scn['marker'] and ((n >> 1) + j) % 2:   # duck-typed: a subclass that inherits the remote-aware __getstate__
+                    s2['ovar'] = 'sub'
                 if prop == 'C13':            # plain nodes: classes with/without __getstate__/__setstate__/__reduce__/__getnewargs__/__slots__/**kw
                     s2['pvar'] = _PVARS[(n + j) % len(_PVARS)]
                     if s2['pvar'] == 'slots' and p in (0, 1):      # pickle itself refuses __slots__ without __getstate__ there
                         s2['pvar'] = 'newargs'                     # (the menu item slots_class covers that)
+                if scn['par'] and not any(nd['kind'] == 'opt' for nd in scn['g']):
+                    s2['pvar'] = 'gs'            # plain objects whose __setstate__ is the point where thread 2 is nested
                 if scn['par']:
                     k = max(1, nev.get(n, 1))
                     nests = sorted({1, k}) if tier == 'quick' else range(1, k + 1)
@@ -212,7 +230,7 @@ def _judge(prop, records, name):
     """Judge distinct records only (the operators do not read protocol / container type)."""
     uniq, index = {}, []
     for r in records:
-        scn = {k: v for k, v in r['scn'].items() if k not in ('proto', 'ctype', 'pvar')}
+        scn = {k: v for k, v in r['scn'].items() if k not in ('proto', 'ctype', 'pvar', 'ovar')}
         key = json.dumps([scn, r['obs']], sort_keys=True)
         if key not in uniq:
             uniq[key] = {'id': 'u%d' % len(uniq), 'scn': r['scn'], 'obs': r['obs']}
@@ -261,7 +279,8 @@ def run(prop, tier, replay=None):
                threading.Thread(target=_model_fixed, args=(rpset, 5, out, big)),
                threading.Thread(target=_model_reject, args=(prop, out)),
                threading.Thread(target=_model_wit, args=(out,)),
-               threading.Thread(target=_model_reject_guard, args=(out,))]
+               threading.Thread(target=_model_reject_guard, args=(out,)),
+               threading.Thread(target=_model_reject_shared, args=(prop, out))]
         if tier == 'thorough':
             ths.append(threading.Thread(target=_model_live, args=(out,)))
         errs = []
@@ -348,13 +367,17 @@ def run(prop, tier, replay=None):
     ev.add_tlc('vacuity: corrected design + guard on the left-over of a failed load in context.__init__ (must be rejected)', rg, role='vacuity')
     if not (rg.error or '').startswith('invariant:Inv_C1'):
         raise MachineryError('TLC does not reject a context.__init__ that refuses to start after a failed load: %s' % rg.error)
+    rs = out['reject_shared']
+    ev.add_tlc('vacuity: code as written + process-wide load context, two loading threads (must be rejected)', rs, role='vacuity')
+    if not (rs.error or '').startswith(('invariant:Inv_' + prop, 'invariant:AsIs_' + prop)):
+        raise MachineryError('TLC does not reject a load context shared between threads for %s: %s' % (prop, rs.error))
     ev.add_tlc('witnesses (every antecedent / fault reached)', rw, role='vacuity')
     reached = sorted({x[0] for x in rw.tags.get('WIT', [])})
     need = ['Concurrency', 'Copyreg', 'DumpWarning', 'Failure', 'MemoGet', 'OptInFalse', 'PatchDelivered', 'Residue', 'Siblings',
-            'StdOp', 'StdPath', 'Warning', 'AfterFail', 'Falsy', 'LateCopyreg', 'LowProto', 'FailedThenLoad']
+            'StdOp', 'StdPath', 'Warning', 'AfterFail', 'Falsy', 'LateCopyreg', 'LowProto', 'FailedThenLoad', 'ParPlain', 'NestedResidue']
     if rw.error or [w for w in need if w not in reached]:
         raise MachineryError('witnesses not reached: %s (%s)' % ([w for w in need if w not in reached], rw.error))
-    ev.cov['witnesses'] = {'reached': reached, 'asis_model_rejected_by': rrj.error, 'init_guard_rejected_by': rg.error}
+    ev.cov['witnesses'] = {'reached': reached, 'asis_model_rejected_by': rrj.error, 'init_guard_rejected_by': rg.error, 'shared_context_rejected_by': rs.error}
     if 'live' in out:
         ev.add_tlc('liveness: every scenario terminates', out['live'], role='vacuity')
         if out['live'].error or not out['live'].completed:
@@ -384,6 +407,7 @@ def run(prop, tier, replay=None):
         'dict state handed to __setstate__ may be an OrderedDict (not distinguished from dict)',
         'two threads: load 2 runs completely inside one REDUCE/BUILD event of load 1 (the deterministic interleavings); TLC explores all interleavings of the model',
         'truncated streams are cut at opcode boundaries of the unframed pickle; the cut is located through the __new__/__setstate__ calls of the generated classes',
+        'opt-in classes with a falsy state / __getnewargs__ are exercised at protocols >= 2 only: at protocols 0 and 1 standard pickling (copyreg._reduce_ex) ignores __getnewargs__ and drops falsy states whereas remote_reduce always reduces the protocol-2 way, so dumps(remote=False) of a registered opt-in class is NOT equal to pickle there (observed, not listed)',
         'equal_to_pickle: structural comparison (types, values, sharing, cycles) of the two round trips, or both raise',
     ]
     return finish(ev, violations, T.s(), drift)
@@ -401,5 +425,5 @@ def _describe(s, nest):
                                         ','.join('%s->%d' % (e['k'], e['to']) for e in nd['ent'])) for i, nd in enumerate(s['g'], 1))
     loads = '; '.join('%sloads(patch=%s)%s' % ('T%d:' % L['thr'] if s['par'] else '', json.dumps(G.patch_dict(L['patch'])),
                                              '' if L['fail'] == 'none' else ' with %s@%d' % (L['fail'], L['at'])) for L in s['loads'])
-    return 'graph {%s} op=%s remote=%s %s proto=%s ctype=%s%s: %s' % (nodes, s['op'], s['remote'], 'marker' if s['marker'] else 'duck',
+    return 'graph {%s} op=%s remote=%s %s proto=%s ctype=%s%s: %s' % (nodes, s['op'], s['remote'], 'marker' if s['marker'] else ('duck-subclass' if s.get('ovar') == 'sub' else 'duck'),
                                                                     s.get('proto'), s.get('ctype'), ' nest_at=%s' % nest if nest else '', loads)
